@@ -565,12 +565,17 @@ Proof.
   - intros [x [H [P E]]]. exists x. split; auto. apply filter_In. auto.
 Qed.
 
+Lemma in_filter_ex {A} (p : A -> bool) l y :
+  In y (filter p l) <-> exists x, In x l /\ p x = true /\ y = x.
+Proof.
+  rewrite filter_In. split; [intros [H P]; exists y; auto|intros [x [H [P ->]]]; auto].
+Qed.
+
 Lemma c_up_coords_members {O : NumOps} (h : T O) (S : cs O) c' :
   In c' (c_coords (c_up_sample h S)) <->
   exists c, In c (c_coords S) /\ In c' (lattice_children (flip_of (c_flipped S) c) c).
 Proof.
   cbn [c_up_sample c_coords]. rewrite !in_app_iff.
-  rewrite <- !(map_id (filter _ (c_coords S))) at 1.
   rewrite !in_map_filter. unfold lattice_children. split.
   - intros [[H|[H|[H|H]]]|[H|[H|[H|H]]]]; destruct H as [c [Hc [P E]]]; exists c; split; auto;
       try (apply negb_true_iff in P); rewrite P; subst c'; cbn; auto.
@@ -598,8 +603,7 @@ Lemma c_nbr_coords_members {O : NumOps} (S : cs O) c' :
   exists c, In c (c_coords S) /\ In c' (lattice_neighbours (flip_of (c_flipped S) c) c).
 Proof.
   cbn [c_neighborhood c_coords]. rewrite (in_unique zpt_ltb zpt_eqb zpt_eqb_eq). rewrite !in_app_iff.
-  rewrite <- !(map_id (filter _ (c_coords S))) at 1.
-  rewrite !in_map_filter. unfold lattice_neighbours. split.
+  rewrite !in_map_filter, !in_filter_ex. unfold lattice_neighbours. split.
   - intros [[H|[H|[H|H]]]|[H|[H|[H|H]]]]; destruct H as [c [Hc [P E]]]; exists c; split; auto;
       try (apply negb_true_iff in P); rewrite P; subst c'; cbn; auto.
   - intros [c [Hc H]]. destruct (flip_of (c_flipped S) c) eqn:P; cbn [In] in H.
@@ -655,3 +659,125 @@ Proof.
     + rewrite (c_tri_params h (c_neighborhood S) S c') by reflexivity. exact Es.
     + apply c_nbr_coords_members. exists c. auto.
 Qed.
+
+(* ------------------------------------------------------------------ containment *)
+Lemma point_mask_degenerate (p : rpt) (t : rtri) : signed2 t = 0 -> point_mask p t = false.
+Proof.
+  destruct t as [[[x1 y1] [x2 y2]] [x3 y3]], p as [px py]. unfold point_mask, bary_mask. rsimp. cbn [eqb leb ROps].
+  intros D. destruct (Reqb _ 0) eqn:E; [reflexivity|]. rbool. exfalso. apply E. lra.
+Qed.
+
+Lemma point_mask_iff_inside (p : rpt) (t : rtri) :
+  nondegenerate t -> (point_mask p t = true <-> inside t p).
+Proof.
+  destruct t as [[[x1 y1] [x2 y2]] [x3 y3]], p as [px py]. unfold nondegenerate, point_mask, bary_mask, inside.
+  rsimp. cbn [eqb leb ROps]. intros D.
+  set (den := (y2 - y3) * (x1 - x3) + (x3 - x2) * (y1 - y3)).
+  assert (Dn : den <> 0) by (unfold den; intros X; apply D; lra).
+  destruct (Reqb den 0) eqn:E; rbool; [contradiction|].
+  rewrite !andb_true_iff, !Rleb_true. split.
+  - intros [[[[[A0 A1] B0] B1] C0] C1].
+    eexists _, _, _. split; [exact A0|]. split; [exact B0|]. split; [exact C0|]. split; [lra|].
+    f_equal; unfold den; field; exact Dn.
+  - intros (a & b & c & Ha & Hb & Hc & Hs & Hp). injection Hp as Hx Hy.
+    assert (Ea : ((y2 - y3) * (px - x3) + (x3 - x2) * (py - y3)) / den = a).
+    { subst px py. replace c with (1 - a - b) by lra. unfold den. field. exact Dn. }
+    assert (Eb : ((y3 - y1) * (px - x3) + (x1 - x3) * (py - y3)) / den = b).
+    { subst px py. replace c with (1 - a - b) by lra. unfold den. field. exact Dn. }
+    rewrite Ea, Eb. repeat split; lra.
+Qed.
+
+Lemma shape_mask_if_reference_inside (s : shape ROps) (t : rtri) :
+  point_mask (shape_ref s) t = true -> shape_mask s t = true.
+Proof.
+  intros H. destruct s; cbn [shape_mask shape_ref] in *; unfold tri_shape_mask; rewrite ?H, ?orb_true_r; reflexivity.
+Qed.
+
+(* the orientation test used by the correspondence checker agrees with the convex-hull definition *)
+Lemma spec_inside_iff (p : rpt) (t : rtri) :
+  @spec_inside ROps p t = true <-> nondegenerate t /\ inside t p.
+Proof.
+  destruct t as [[[x0 y0] [x1 y1]] [x2 y2]], p as [px py]. unfold nondegenerate, spec_inside, edge_fn, inside.
+  rsimp. cbn [eqb leb ROps].
+  set (o := (x1 - x0) * (y2 - y0) - (y1 - y0) * (x2 - x0)).
+  set (d0 := (x1 - x0) * (py - y0) - (y1 - y0) * (px - x0)).
+  set (d1 := (x2 - x1) * (py - y1) - (y2 - y1) * (px - x1)).
+  set (d2 := (x0 - x2) * (py - y2) - (y0 - y2) * (px - x2)).
+  assert (So : d0 + d1 + d2 = o) by (unfold d0, d1, d2, o; ring).
+  assert (Eo : (x1 - x0) * (y2 - y0) - (x2 - x0) * (y1 - y0) = o) by (unfold o; ring).
+  rewrite Eo. rewrite andb_true_iff, negb_true_iff, orb_true_iff, !andb_true_iff, !Rleb_true, Reqb_false. split.
+  - intros [No [[[P0 P1] P2]|[[P0 P1] P2]]]; split; auto.
+    + assert (Po : 0 < o) by lra.
+      exists (d1 / o), (d2 / o), (d0 / o).
+      split; [apply Rmult_le_pos; [lra|apply Rlt_le, Rinv_0_lt_compat; lra]|].
+      split; [apply Rmult_le_pos; [lra|apply Rlt_le, Rinv_0_lt_compat; lra]|].
+      split; [apply Rmult_le_pos; [lra|apply Rlt_le, Rinv_0_lt_compat; lra]|].
+      split; [rewrite <- So; field; lra|].
+      f_equal; unfold d0, d1, d2; fold o; unfold o; field; fold o; lra.
+    + assert (Po : 0 < - o) by lra.
+      exists (- d1 / - o), (- d2 / - o), (- d0 / - o).
+      split; [apply Rmult_le_pos; [lra|apply Rlt_le, Rinv_0_lt_compat; lra]|].
+      split; [apply Rmult_le_pos; [lra|apply Rlt_le, Rinv_0_lt_compat; lra]|].
+      split; [apply Rmult_le_pos; [lra|apply Rlt_le, Rinv_0_lt_compat; lra]|].
+      split; [rewrite <- So; field; lra|].
+      f_equal; unfold d0, d1, d2; fold o; unfold o; field; fold o; lra.
+  - intros [No (a & b & c & Ha & Hb & Hc & Hs & Hp)]. split; [exact No|]. injection Hp as Hx Hy.
+    assert (E0 : d0 = o * c) by (unfold d0, o; subst px py; replace a with (1 - b - c) by lra; ring).
+    assert (E1 : d1 = o * a) by (unfold d1, o; subst px py; replace c with (1 - a - b) by lra; ring).
+    assert (E2 : d2 = o * b) by (unfold d2, o; subst px py; replace c with (1 - a - b) by lra; ring).
+    rewrite E0, E1, E2.
+    destruct (Rle_dec 0 o) as [P|P].
+    + left. repeat split; apply Rmult_le_pos; lra.
+    + right. assert (Q : 0 <= - o) by lra.
+      repeat split; match goal with |- o * ?z <= 0 => replace (o * z) with (- ((- o) * z)) by ring;
+                        assert (0 <= (- o) * z) by (apply Rmult_le_pos; lra); lra end.
+Qed.
+
+(* ------------------------------------------------------------------ areas in the lattice representation *)
+Lemma c_tri_signed2 (h : T ROps) (S : cs ROps) (c : zpt) : signed2 (c_tri h S c) = - (c_side S * c_side S * h).
+Proof.
+  destruct c as [x y], S as [cs s xo yo fl]. unfold c_tri, c_centre, flip_sign. cbn [c_flipped c_side c_xoff c_yoff fst snd].
+  destruct (flip_of fl (x, y)); rsimp; field.
+Qed.
+
+Lemma c_area_is_total_area (h : T ROps) (S : cs ROps) :
+  0 <= h -> c_area h S = total_area (c_triangles h S).
+Proof.
+  intros Hh. unfold c_area, c_triangles, c_len, ofNat. rsimp.
+  induction (c_coords S) as [|c l IH]; cbn [map total_area length].
+  - cbn. lra.
+  - rewrite Nat2Z.inj_succ, succ_IZR. rewrite <- IH. unfold tri_area. rewrite c_tri_signed2.
+    rewrite Rabs_Ropp, Rabs_right; [lra|].
+    apply Rle_ge. apply Rmult_le_pos; [apply Rle_0_sqr|exact Hh].
+Qed.
+
+Lemma filter_partition_length {A} (p : A -> bool) l :
+  (length (filter (fun x => negb (p x)) l) + length (filter p l) = length l)%nat.
+Proof. induction l as [|x l IH]; cbn; [reflexivity|]. destruct (p x); cbn; lia. Qed.
+
+Lemma c_up_sample_len {O : NumOps} (h : T O) (S : cs O) : c_len (c_up_sample h S) = (4 * c_len S)%nat.
+Proof.
+  unfold c_len. cbn [c_up_sample c_coords]. rewrite !app_length, !map_length.
+  pose proof (filter_partition_length (flip_of (c_flipped S)) (c_coords S)). lia.
+Qed.
+
+Lemma c_up_sample_area (h : T ROps) (S : cs ROps) : c_area h (c_up_sample h S) = c_area h S.
+Proof.
+  unfold c_area. rewrite c_up_sample_len. cbn [c_up_sample c_side]. unfold ofNat. rsimp.
+  rewrite Nat2Z.inj_mul, mult_IZR. cbn [Z.of_nat Pos.of_succ_nat Pos.succ]. field.
+Qed.
+
+(* ------------------------------------------------------------------ statements as used in Props/C20.v *)
+Lemma area_conserved (ts : list rtri) : @area ROps (up_sample_triangles ts) = @area ROps ts.
+Proof. rewrite !area_is_total_area. exact (up_sample_area ts). Qed.
+
+Lemma vertices_preserved (ts : list rtri) (t : rtri) (p : rpt) :
+  In t ts -> is_corner p t -> exists c, In c (up_sample_triangles ts) /\ is_corner p c.
+Proof.
+  intros Ht Hp. destruct (corners_kept t p Hp) as [c [Hc Hpc]].
+  exists c. split; [apply up_sample_members4; exists t; auto|exact Hpc].
+Qed.
+
+Lemma shape_mask_if_reference_point_inside (s : shape ROps) (t : rtri) :
+  nondegenerate t -> inside t (shape_ref s) -> shape_mask s t = true.
+Proof. intros D H. apply shape_mask_if_reference_inside. apply point_mask_iff_inside; assumption. Qed.
